@@ -573,7 +573,8 @@ class Client(base_client.BaseClient):
                 self.queue.task_done()
                 packets = []
             else:
-                while True:
+                # never put more packets in one payload than a server accepts
+                while len(packets) < payload.Payload.max_decode_packets:
                     try:
                         packets.append(self.queue.get(block=False))
                     except self.queue.Empty:
